@@ -204,6 +204,7 @@ func oracleC05(r *Result) ([]Violation, bool) {
 	}
 	// token handed to OnPromote == token of the acquisition write
 	pi := map[string]int{}
+	lastProm := map[string]string{}
 	for _, e := range r.Trace {
 		if e.K == "promote" {
 			found := false
@@ -216,11 +217,17 @@ func oracleC05(r *Result) ([]Violation, bool) {
 				s.add(e.T, "promote-token-not-in-record", "%s: OnPromote got token %s which no acquisition write of %s carried", e.I, e.S, e.I)
 			}
 			pi[e.I]++
+			lastProm[e.I] = e.S
 		}
 		if e.K == "q" {
 			for _, sn := range e.Snap {
 				if !sn.IsLeader || sn.Cut {
 					continue
+				}
+				// the token handed to the (latest) promotion callback is the token in the record
+				if rec := recOf(r, &e, sn.I); rec != nil && rec.ID == sn.I && rec.By == sn.I && !sn.Fine && !sn.Blocked && !sn.InStop &&
+					sn.NProm-sn.NDem == 1 && lastProm[sn.I] != "" && lastProm[sn.I] != rec.Token {
+					s.add(e.T, "promote-token-differs-from-record", "%s leads, its live record rev %d carries token %s, but its latest OnPromote was handed %s", sn.I, rec.Rev, rec.Token, lastProm[sn.I])
 				}
 				if !sn.Blocked && sn.SIsLead && sn.SToken != sn.Token {
 					s.add(e.T, "status-token-differs", "%s: Token()=%s Status().Token=%s", sn.I, sn.Token, sn.SToken)
@@ -627,6 +634,11 @@ func oracleC18(r *Result) ([]Violation, bool) {
 	}
 	// ids read by periodic checks that were answered since the last quiescent point
 	pcheckRead := map[string]string{}
+	type staleT struct {
+		t  time.Duration
+		id string
+	}
+	staleSince := map[string]*staleT{}
 	for _, e := range r.Trace {
 		switch e.K {
 		case "op.issue":
@@ -726,6 +738,23 @@ func oracleC18(r *Result) ([]Violation, bool) {
 				if id, ok := pcheckRead[sn.I]; ok {
 					if rec := recOf(r, &e, sn.I); sn.Started && !sn.StopDone && !sn.InStop && !sn.IsLeader && !sn.Cut && !sn.Fine && rec != nil && rec.ID == id && sn.LeaderID != id {
 						s.add(e.T, "follower-leaderid-stale/periodic-check", "%s: the periodic check has just read the live record naming %q, but the follower's LeaderID() is %q at %v", sn.I, id, sn.LeaderID, e.T)
+					}
+				}
+				// follower convergence, whatever the mechanism: a running follower with nothing in
+				// flight does not report a leader other than the one the (unchanged) live record
+				// names for longer than three periodic-check intervals
+				{
+					rec := recOf(r, &e, sn.I)
+					mis := sn.Started && !sn.StopDone && !sn.InStop && !sn.StopFailed && !sn.CtxCancelled && !sn.IsLeader && !sn.Cut && !sn.Fine &&
+						sn.PendCur == 0 && rec != nil && rec.ID != "" && rec.ID != sn.LeaderID
+					st := staleSince[sn.I]
+					switch {
+					case !mis:
+						delete(staleSince, sn.I)
+					case st == nil || st.id != rec.ID:
+						staleSince[sn.I] = &staleT{e.T, rec.ID}
+					case e.T-st.t > 1500*ms+4*r.Scn.LatencyBound:
+						s.add(e.T, "follower-leaderid-stale/not-converging", "%s: follower's LeaderID()=%q although the live record has named %q since %v at the latest (now %v) and nothing of the instance is in flight", sn.I, sn.LeaderID, rec.ID, st.t, e.T)
 					}
 				}
 				// follower convergence
